@@ -316,17 +316,17 @@ Proof.
 Qed.
 
 (* ---- insert ---- *)
-Lemma insert_wf s e :
+Lemma insert_gen_wf fixed s e :
   ps_wf s ->
-  exists s' r, ps_insert s e = Some (s', r) /\ ps_wf s' /\ p_reserve s' = p_reserve s /\
+  exists s' r, ps_insert_gen fixed s e = Some (s', r) /\ ps_wf s' /\ p_reserve s' = p_reserve s /\
     (if sl_mem (abs s) (fst e)
      then s' = s /\ r = RInsert false None false
      else abs s' = sl_insert e (abs s) /\ p_sz s' = (p_sz s + 1)%nat /\
           exists stale, r = RInsert true (Some (sl_count_lt (abs s) (fst e))) stale /\
-                        (stale = true <-> (p_sz s <> 0%nat /\ p_sz s = p_rsz s))).
+                        (stale = true <-> (fixed = false /\ p_sz s <> 0%nat /\ p_sz s = p_rsz s))).
 Proof.
   intros Hwf. pose proof Hwf as [Hh [Hle [Hpos [Hlen Hs]]]].
-  pose proof (abs_length s Hwf) as Hl. unfold ps_insert.
+  pose proof (abs_length s Hwf) as Hl. unfold ps_insert_gen.
   destruct (p_sz s =? 0)%nat eqn:E0.
   - (* first element: a fresh block of _rsz slots *)
     apply Nat.eqb_eq in E0. rewrite Hh.
@@ -340,7 +340,7 @@ Proof.
     + unfold ps_wf, upd, abs; cbn. repeat split; try lia; try assumption.
       right. rewrite repeat_length. reflexivity.
     + split; [reflexivity|]. split; [reflexivity|]. split; [cbn; lia|].
-      exists false. split; [reflexivity|]. split; [discriminate | intros [C _]; congruence].
+      exists false. split; [reflexivity|]. split; [discriminate | intros [_ [C _]]; congruence].
   - apply Nat.eqb_neq in E0. rewrite (find_answer_wf s e Hwf).
     destruct (sl_mem (abs s) (fst e)) eqn:M.
     + eexists _, _. split; [reflexivity|]. split; [exact Hwf|]. split; [reflexivity|]. split; reflexivity.
@@ -381,7 +381,7 @@ Proof.
            rewrite Harr in Hcap. rewrite !app_length in Hcap. cbn [length] in Hcap. lia.
         -- split; [reflexivity|]. split; [|split; [reflexivity|]].
            ++ unfold abs, upd; cbn [p_sz p_arr]. rewrite Hfirst. symmetry. exact Hsplit.
-           ++ exists false. split; [reflexivity|]. split; [discriminate|]. intros [_ C]. lia.
+           ++ exists false. split; [reflexivity|]. split; [discriminate|]. intros [_ [_ C]]. lia.
       * (* full: a new block of _sz + calc_reserve(_sz, _reserve) slots *)
         apply Nat.ltb_ge in Efull. assert (p_sz s = p_rsz s) as Hfull by lia.
         pose proof (calc_reserve_pos (p_sz s) (p_reserve s) E0) as Hcr.
@@ -413,7 +413,45 @@ Proof.
            rewrite !app_length. cbn [length]. rewrite app_length, repeat_length. lia.
         -- split; [reflexivity|]. split; [|split; [reflexivity|]].
            ++ unfold abs, upd; cbn [p_sz p_arr]. rewrite Hfirst. symmetry. exact Hsplit.
-           ++ exists true. split; [reflexivity|]. split; [intros _; split; assumption | reflexivity].
+           ++ exists (negb fixed). split; [reflexivity|]. split.
+              ** intros C. apply negb_true_iff in C. repeat split; assumption.
+              ** intros [-> _]. reflexivity.
+Qed.
+
+(* the current code (5f81ca8): the returned position is always that of the inserted element *)
+Lemma insert_wf s e :
+  ps_wf s ->
+  exists s' r, ps_insert s e = Some (s', r) /\ ps_wf s' /\ p_reserve s' = p_reserve s /\
+    (if sl_mem (abs s) (fst e)
+     then s' = s /\ r = RInsert false None false
+     else abs s' = sl_insert e (abs s) /\ p_sz s' = (p_sz s + 1)%nat /\
+          r = RInsert true (Some (sl_count_lt (abs s) (fst e))) false).
+Proof.
+  intros Hwf. destruct (insert_gen_wf true s e Hwf) as [s' [r [Hi [Hwf' [Hres H]]]]].
+  exists s', r. split; [exact Hi|]. split; [exact Hwf'|]. split; [exact Hres|].
+  destruct (sl_mem (abs s) (fst e)); [exact H|].
+  destruct H as [Habs [Hsz [stale [Hr Hiff]]]]. split; [exact Habs|]. split; [exact Hsz|].
+  destruct stale; [|exact Hr]. destruct (proj1 Hiff eq_refl) as [C _]. discriminate.
+Qed.
+
+(* the position returned designates the inserted element in the new state *)
+Lemma insert_position s e s' pos :
+  ps_wf s -> ps_insert s e = Some (s', RInsert true pos false) ->
+  exists i, pos = Some i /\ nth_error (abs s') i = Some e /\ (i < p_sz s')%nat.
+Proof.
+  intros Hwf Hi. destruct (insert_wf s e Hwf) as [s1 [r [Hi' [Hwf1 [_ H]]]]].
+  rewrite Hi in Hi'. inversion Hi'; subst s1 r. clear Hi'.
+  destruct (sl_mem (abs s) (fst e)) eqn:M; [destruct H as [_ C]; discriminate|].
+  destruct H as [Habs [Hsz Hr]]. inversion Hr; subst pos.
+  assert (~ In (fst e) (map fst (abs s))) as Hn by (intros C; apply sl_mem_In in C; congruence).
+  destruct Hwf as [_ [_ [_ [_ Hs]]]].
+  exists (sl_count_lt (abs s) (fst e)). split; [reflexivity|].
+  pose proof (sl_count_le_length (abs s) (fst e)) as Hc.
+  rewrite Habs, (sl_insert_split e (abs s) Hs Hn). split.
+  - rewrite nth_error_app2 by (rewrite firstn_length; lia).
+    rewrite firstn_length, Nat.min_l by lia. rewrite Nat.sub_diag. reflexivity.
+  - rewrite <- (abs_length s' Hwf1), Habs, (sl_insert_split e (abs s) Hs Hn).
+    rewrite app_length, firstn_length. cbn [length]. lia.
 Qed.
 
 Lemma insert_range_wf : forall es s,
@@ -426,20 +464,17 @@ Proof.
   - destruct (insert_wf s e Hwf) as [s1 [r [Hi [Hwf1 [Hres H]]]]]. rewrite Hi.
     destruct (sl_mem (abs s) (fst e)).
     + destruct H as [-> ->]. exists s. split; [reflexivity|]. split; [exact Hwf|]. split; reflexivity.
-    + destruct H as [Habs [_ [stale [-> _]]]].
+    + destruct H as [Habs [_ ->]].
       destruct (IH s1 Hwf1) as [s' [Hr [Hwf' [Hres' Habs']]]].
       exists s'. split; [exact Hr|]. split; [exact Hwf'|]. split; [congruence|].
       rewrite Habs', Habs. reflexivity.
 Qed.
 
-(* results with the stale flag erased: what a caller that only uses a valid iterator can see *)
-Definition erase (o : out) : out :=
-  match o with RInsert ok pos _ => RInsert ok pos false | x => x end.
 
 Theorem ps_step_refines s o :
   ps_wf s ->
   exists s' r, ps_step s o = Some (s', r) /\ ps_wf s' /\ p_reserve s' = p_reserve s /\
-               spec_step (abs s) o = (abs s', erase r).
+               spec_step (abs s) o = (abs s', r).
 Proof.
   intros Hwf. destruct o as [k|k|i|e|es|]; cbn [ps_step spec_step].
   - rewrite (find_wf s k Hwf). eexists _, _. split; [reflexivity|]. split; [exact Hwf|]. split; reflexivity.
@@ -450,7 +485,7 @@ Proof.
     exists s1, r. split; [reflexivity|]. split; [exact Hwf1|]. split; [exact Hres|].
     destruct (sl_mem (abs s) (fst e)).
     + destruct H as [-> ->]. reflexivity.
-    + destruct H as [Habs [_ [stale [-> _]]]]. rewrite Habs. reflexivity.
+    + destruct H as [Habs [_ ->]]. rewrite Habs. reflexivity.
   - destruct (insert_range_wf es s Hwf) as [s' [Hr [Hwf' [Hres Habs]]]]. rewrite Hr.
     exists s', RRange. split; [reflexivity|]. split; [exact Hwf'|]. split; [exact Hres|]. rewrite Habs. reflexivity.
   - eexists _, _. split; [reflexivity|]. destruct Hwf as [Hh [Hle [Hpos [Hlen Hs]]]]. split.
@@ -462,7 +497,7 @@ Qed.
 Theorem ps_run_refines : forall ops s,
   ps_wf s ->
   exists s' rs, ps_run s ops = Some (s', rs) /\ ps_wf s' /\
-    map (fun x => (erase (fst (fst x)), snd (fst x))) rs = spec_run (abs s) ops /\
+    map fst rs = spec_run (abs s) ops /\
     Forall (fun x => (snd (fst x) <= snd x)%nat) rs.
 Proof.
   induction ops as [|o t IH]; intros s Hwf; cbn [ps_run spec_run].
@@ -498,7 +533,7 @@ Qed.
 Theorem presorted_refines_lemma tab reserve ops :
   keys_sorted tab = true -> (tab <> [] \/ (0 < reserve)%nat) ->
   exists s' rs, ps_run (ps_init_array tab reserve) ops = Some (s', rs) /\
-    map (fun x => (erase (fst (fst x)), snd (fst x))) rs = spec_run tab ops /\
+    map fst rs = spec_run tab ops /\
     Forall (fun x => (snd (fst x) <= snd x)%nat) rs.
 Proof.
   intros Hs Hne. destruct (init_array_wf tab reserve Hs Hne) as [Hwf Habs].
@@ -509,7 +544,7 @@ Qed.
 Theorem presorted_empty_refines_lemma reserve ops :
   (0 < reserve)%nat ->
   exists s' rs, ps_run (ps_init_explicit 0 reserve) ops = Some (s', rs) /\
-    map (fun x => (erase (fst (fst x)), snd (fst x))) rs = spec_run [] ops /\
+    map fst rs = spec_run [] ops /\
     Forall (fun x => (snd (fst x) <= snd x)%nat) rs.
 Proof.
   intros H. destruct (init_empty_wf reserve H) as [Hwf Habs].
@@ -517,28 +552,65 @@ Proof.
   exists s', rs. split; [exact Hrun|]. rewrite Habs in Hmap. split; assumption.
 Qed.
 
-(* the stale iterator: exactly the inserts that reallocate *)
-Theorem insert_stale_lemma s e s' ok pos stale :
-  ps_wf s -> ps_insert s e = Some (s', RInsert ok pos stale) ->
-  (stale = true <-> (ok = true /\ p_sz s <> 0%nat /\ p_sz s = p_rsz s)).
+(* ---- the oracle accepts the model's observations (no escape clause) ---- *)
+Lemma onat_eqb_refl a : onat_eqb a a = true.
+Proof. destruct a; cbn; [apply Nat.eqb_refl | reflexivity]. Qed.
+
+Lemma out_eqb_refl o : out_eqb o o = true.
+Proof.
+  destruct o as [r|p a|[e|]|ok pos st| |]; cbn; try reflexivity.
+  - apply onat_eqb_refl.
+  - rewrite onat_eqb_refl, eqb_reflx. reflexivity.
+  - unfold elem_eqb. rewrite !Z.eqb_refl. reflexivity.
+  - rewrite !eqb_reflx, onat_eqb_refl. reflexivity.
+Qed.
+
+Lemma outs_eqb_refl l : outs_eqb l l = true.
+Proof. induction l as [|[o n] l IH]; cbn; [reflexivity|]. rewrite out_eqb_refl, Nat.eqb_refl, IH. reflexivity. Qed.
+
+Theorem presorted_oracle_lemma tab reserve ops :
+  keys_sorted tab = true -> (tab <> [] \/ (0 < reserve)%nat) ->
+  exists s' rs, ps_run (ps_init_array tab reserve) ops = Some (s', rs) /\ c12_ps_ok tab ops (map fst rs) = true.
+Proof.
+  intros Hs Hne. destruct (presorted_refines_lemma tab reserve ops Hs Hne) as [s' [rs [Hrun [Hmap _]]]].
+  exists s', rs. split; [exact Hrun|]. unfold c12_ps_ok. rewrite Hmap. apply outs_eqb_refl.
+Qed.
+
+(* the iterator returned by insert: never stale in the current code; in the ORIGINAL routine stale
+   exactly for the inserts that had to grow the block *)
+Theorem insert_never_stale_lemma s e s' ok pos stale :
+  ps_wf s -> ps_insert s e = Some (s', RInsert ok pos stale) -> stale = false.
 Proof.
   intros Hwf Hi. destruct (insert_wf s e Hwf) as [s1 [r [Hi' [_ [_ H]]]]].
   rewrite Hi in Hi'. inversion Hi'; subst s1 r. destruct (sl_mem (abs s) (fst e)).
+  - destruct H as [_ H]. inversion H. reflexivity.
+  - destruct H as [_ [_ H]]. inversion H. reflexivity.
+Qed.
+
+Theorem insert_orig_stale_lemma s e s' ok pos stale :
+  ps_wf s -> ps_insert_orig s e = Some (s', RInsert ok pos stale) ->
+  (stale = true <-> (ok = true /\ p_sz s <> 0%nat /\ p_sz s = p_rsz s)).
+Proof.
+  intros Hwf Hi. destruct (insert_gen_wf false s e Hwf) as [s1 [r [Hi' [_ [_ H]]]]].
+  unfold ps_insert_orig in Hi. rewrite Hi in Hi'. inversion Hi'; subst s1 r. destruct (sl_mem (abs s) (fst e)).
   - destruct H as [_ H]. inversion H; subst. split; [discriminate | intros [C _]; discriminate].
   - destruct H as [_ [_ [st [H Hiff]]]]. inversion H; subst. rewrite Hiff. intuition.
 Qed.
 
 (* ---- witnesses of the defects ---- *)
-Lemma stale_refuted_lemma :
-  exists tab reserve ops s' rs,
-    keys_sorted tab = true /\ tab <> [] /\
-    ps_run (ps_init_array tab reserve) ops = Some (s', rs) /\
-    c12_ps_ok tab ops (map (fun x => (fst (fst x), snd (fst x))) rs) = false /\
-    c12_ps_ok tab ops (map (fun x => (erase (fst (fst x)), snd (fst x))) rs) = true.
+Definition full_set : pset :=
+  {| p_arr := [(1, 0); (2, 0)]; p_sz := 2; p_rsz := 2; p_reserve := 30; p_hash := None |}.
+
+Lemma stale_orig_refuted_lemma :
+  ps_wf full_set /\
+  (exists s', ps_insert_orig full_set (3, 0) = Some (s', RInsert true (Some 2%nat) true)) /\
+  (exists s', ps_insert full_set (3, 0) = Some (s', RInsert true (Some 2%nat) false) /\
+              nth_error (abs s') 2 = Some (3, 0)).
 Proof.
-  exists [(1, 0)], 30%nat, [OInsert (2, 0); OInsert (3, 0)]. eexists _, _.
-  split; [reflexivity|]. split; [discriminate|]. split; [vm_compute; reflexivity|].
-  split; vm_compute; reflexivity.
+  split; [|split].
+  - unfold ps_wf, full_set, abs; cbn. repeat split; try lia.
+  - eexists. vm_compute. reflexivity.
+  - eexists. split; vm_compute; reflexivity.
 Qed.
 
 Lemma reserve0_refuted_lemma : ps_run (ps_init_explicit 0 0) [OInsert (1, 0)] = None.
